@@ -63,6 +63,18 @@ def localRead (val : Bytes) (br : BlobRange) : ReadRes :=
   let rest := val.drop br'.offset.toNat
   if br'.length != 0 then .ok (rest.take br'.length.toNat) else .ok rest
 
+/-- `GitBlobstore.Get` on an inline blob: `sliceInlineBlob` (skip to offset, limited reader);
+offsets outside the blob and negative lengths are rejected with an error -/
+def gitRead (val : Bytes) (br : BlobRange) : ReadRes :=
+  if br.isAllRange then .ok val else
+  let sz : Int := val.length
+  let p := br.positiveRange sz
+  if p.offset < 0 || p.offset > sz then .error else
+  if p.length < 0 then .error else
+  let l1 := if p.length == 0 then sz - p.offset else p.length
+  let l2 := if wrap64 (p.offset + l1) > sz then sz - p.offset else l1
+  .ok ((val.drop p.offset.toNat).take l2.toNat)
+
 /-- the documented meaning of a range on a blob, for `-size ≤ offset ≤ size`, `0 ≤ length` -/
 def specRange (val : Bytes) (offset length : Int) : Bytes :=
   let start := if offset < 0 then (val.length : Int) + offset else offset
@@ -92,6 +104,22 @@ def run : Reg → List (Nat × Bytes) → Reg × List Bool
     let (r1, ok) := cap r e c
     let (r2, oks) := run r1 ops
     (r2, ok :: oks)
+
+/-- `GitBlobstore.CheckAndPutManifest` = `remoteManagedWrite` around the `build` closure of
+`checkAndPutWithRemoteSync`: a retry loop of attempts, each of which fetches the remote head,
+runs `build` (which compares the expected version with the fetched one), and pushes with a lease
+on the fetched head.  `ws` lists, per attempt, the other clients' conditional updates that land on
+the remote between this attempt's fetch and its push; the lease fails iff they changed the head,
+and then the next attempt starts from the new head.  `checkEvery = true` is the code that exists
+(the comparison is in the closure body, executed on every attempt); `false` models a comparison
+made on the first attempt only. -/
+def capRetry (checkEvery : Bool) : Reg → Nat → Bytes → List (List (Nat × Bytes)) → Bool → Reg × Bool
+  | r, e, c, [], first =>
+    if (checkEvery || first) && e != r.ver then (r, false) else (⟨c, r.ver + 1⟩, true)
+  | r, e, c, w :: ws, first =>
+    if (checkEvery || first) && e != r.ver then (r, false)
+    else if (run r w).1 = r then (⟨c, r.ver + 1⟩, true)       -- lease holds: the head did not move
+    else capRetry checkEvery (run r w).1 e c ws false          -- lease lost: retry on the new head
 
 /-- `composeObjects` / `Concatenate` -/
 def concat (blobs : List Bytes) : Bytes := blobs.foldr (· ++ ·) []
